@@ -355,6 +355,92 @@ theorem rejected_runs_nothing (cfg : Cfg) (w : World) (req : Req)
       · rw [he] at hst; simp [errResp] at hst
       · rw [hb] at hst; simp at hst
 
+/-! ## External-location inputs -/
+
+theorem isFramework_keys : isFramework keyState = true ∧ isFramework keyCall = true ∧ isFramework keyCancel = true := by
+  refine ⟨(isFramework_iff _).mpr (Or.inl rfl), (isFramework_iff _).mpr (Or.inr (Or.inl rfl)),
+    (isFramework_iff _).mpr (Or.inr (Or.inr rfl))⟩
+
+/-- **resolved_strip**: what a handler can see of a resolved external-location input is the FETCHED
+batch's metadata minus the framework keys — wherever the client put its tokens (pointer batch,
+fetched batch or both), whatever else either batch carries. -/
+theorem resolved_strip (pmd : Meta) (f : Fetched) :
+    stripFramework (resolvedMeta pmd f) = stripFramework f.md := by
+  obtain ⟨hs, hc, hx⟩ := isFramework_keys
+  have hcore : List.filter (fun kv => !isFramework kv.1) (List.filter (fun kv => kv.1 != keyCancel) f.md)
+      = List.filter (fun kv => !isFramework kv.1) f.md := by
+    rw [List.filter_filter]
+    apply List.filter_congr
+    intro kv _
+    by_cases hk : kv.1 = keyCancel
+    · simp [hk, hx]
+    · simp [hk]
+  unfold resolvedMeta stripFramework
+  cases getFirst keyState pmd <;> cases getFirst keyCall pmd <;>
+    simp only [List.filter_append, List.append_nil, hcore, List.filter_cons, List.filter_nil, hs, hc,
+      Bool.not_true, Bool.false_eq_true, if_false]
+
+/-- **handler_meta_external**: with external-location inputs in play, whatever a handler call sees
+is the stripped metadata of the batch the request resolves to — the request batch itself, or the
+fetched batch of a resolved pointer — or nothing; never a framework key. An unresolvable pointer
+runs no handler. -/
+theorem handler_meta_external (cfg : Cfg) (w : World) (req : Req) :
+    ∀ ev ∈ (handleExchangeX cfg w req).2.2,
+      (seenOf ev = [] ∨ seenOf ev = stripFramework req.md ∨
+        ∃ f, req.fetch = some (some f) ∧ seenOf ev = stripFramework f.md) ∧
+      (∀ kv ∈ seenOf ev, kv.1 ≠ keyState ∧ kv.1 ≠ keyCall ∧ kv.1 ≠ keyCancel) := by
+  intro ev hev
+  unfold handleExchangeX at hev
+  cases hr : resolveInput cfg req with
+  | error e => rw [hr] at hev; cases hev
+  | ok r =>
+    rw [hr] at hev
+    simp only [] at hev
+    have hm := handler_meta cfg w r ev hev
+    refine ⟨?_, hm.2.2⟩
+    unfold resolveInput at hr
+    cases hf : req.fetch with
+    | none =>
+      rw [hf] at hr; cases hr
+      rcases hm.1 with h | h
+      · exact Or.inr (Or.inl h)
+      · exact Or.inl h
+    | some p =>
+      rw [hf] at hr
+      simp only [] at hr
+      split at hr
+      · cases hr
+        rcases hm.1 with h | h
+        · exact Or.inr (Or.inl h)
+        · exact Or.inl h
+      · cases p with
+        | none => cases hr
+        | some f =>
+          cases hr
+          rcases hm.1 with h | h
+          · exact Or.inr (Or.inr ⟨f, rfl, by rw [h]; exact resolved_strip req.md f⟩)
+          · exact Or.inl h
+
+/-- **token_never_visible_external**: if neither the request batch nor the batch it points to
+carries a token outside the framework keys, no handler ever sees a token. -/
+theorem token_never_visible_external (cfg : Cfg) (w : World) (req : Req)
+    (hreq : ∀ kv ∈ req.md, isFramework kv.1 = true ∨ ∃ b, kv.2 = Val.lit b)
+    (hfet : ∀ f, req.fetch = some (some f) → ∀ kv ∈ f.md, isFramework kv.1 = true ∨ ∃ b, kv.2 = Val.lit b) :
+    ∀ ev ∈ (handleExchangeX cfg w req).2.2, LitOnly (seenOf ev) := by
+  intro ev hev kv hkv
+  have lit_of_strip : ∀ (m : Meta), (∀ x ∈ m, isFramework x.1 = true ∨ ∃ b, x.2 = Val.lit b) →
+      kv ∈ stripFramework m → ∃ b, kv.2 = Val.lit b := by
+    intro m hm hin
+    unfold stripFramework at hin
+    obtain ⟨h1, h2⟩ := List.mem_filter.mp hin
+    rcases hm kv h1 with h | h
+    · simp [h] at h2
+    · exact h
+  rcases (handler_meta_external cfg w req ev hev).1 with h | h | ⟨f, hf, h⟩
+  · rw [h] at hkv; cases hkv
+  · rw [h] at hkv; exact lit_of_strip _ hreq hkv
+  · rw [h] at hkv; exact lit_of_strip _ (hfet f hf) hkv
+
 /-! ## Non-vacuity: concrete requests meeting the hypotheses -/
 
 section Examples
@@ -405,6 +491,19 @@ example : (handleExchange exCfg exWorld
 -- a cursor presented on the other kind's route is refused before anything runs
 example : (handleExchange exCfg exWorld { exReq with routeProducer := true }) =
     (errResp 400 false .wrongMethod, exWorld, []) := by decide
+
+-- an external-location input: cursor on the fetched batch (a garbage one on the pointer), cancel key
+-- and a user key on the fetched batch; the handler sees the user key only
+example : (handleExchangeX { exCfg with extIn := true } exWorld
+      { md := [(keyLocation, .lit [104]), (keyState, .lit [1]), (keyCall, .call 0), (kUser, .lit [112])],
+        fetch := some (some { md := [(keyCancel, .lit []), (kUser, vUser), (keyState, .cursor 0)], vals := [5] }),
+        env := { wire := 10 } }).2.2 = [.exchange 0 [(kUser, vUser)] [5]] := by decide
+
+-- the same request on a server without the external-location config: the pointer batch is the input
+example : (handleExchangeX exCfg exWorld
+      { md := [(keyLocation, .lit [104]), (keyState, .cursor 0), (keyCall, .call 0)],
+        fetch := some (some { md := [(kUser, vUser)], vals := [5] }), env := { wire := 10 } }).2.2
+    = [.exchange 0 [(keyLocation, .lit [104])] []] := by decide
 
 end Examples
 
